@@ -18,7 +18,7 @@ pub fn prop() -> Prop {
         check,
         quick_runs: 24_000,
         both_profiles: false,
-        rule: "a run = interleaved traffic of 2-4 aircraft with adversarially close addresses (one-bit neighbours, byte-swapped, shared halves, 000001, FFFFFF) in all nine formats with structured and random payloads, plus zero-address frames, duplicates and reordering; the table is diffed after every delivered read; non-trivial = frames of at least two distinct addresses were applied; distinct = distinct scripts",
+        rule: "a run = interleaved traffic of 2-4 aircraft with adversarially close addresses (one-bit neighbours, byte-swapped, shared halves, 000001, FFFFFF) in all nine formats with structured and random payloads, plus zero-address frames, duplicates and reordering; the table is diffed after every delivered read; in 6 % of the runs the wall clock is set back once or twice (by < 1 s up to 15 s); non-trivial = frames of at least two distinct addresses were applied; distinct = distinct scripts",
         level_text: "seeded exploration of interleaved multi-aircraft histories; invariants after every event against an independent CRC-24 / address reference: only the row of the frame's address may change, that row exists afterwards, no row for address 0, row key equals row address, no unexplained new rows",
     }
 }
@@ -122,6 +122,7 @@ fn gen(rng: &mut Rng, _idx: u64, tier: Tier) -> Case {
             lines.insert(j, l);
         }
     }
+    gen::clock_steps_back(rng, &mut lines, 0.06);
     let ch = *rng.pick(&[Chunking::Line, Chunking::Line, Chunking::Multi, Chunking::Pieces]);
     let mut script = Script::file(args, vec![]);
     script.tcp = rng.chance(0.25);
@@ -153,6 +154,9 @@ fn check(case: &Case, st: &mut Stats) -> Vec<Violation> {
     let mut model = Expiry::new(d);
     let empty: Arc<Snapshot> = Arc::new(Snapshot::new());
     let mut applied_addrs = std::collections::BTreeSet::new();
+    // aircraft that looked expired at the clock of some step (with a clock that can be set back this is more
+    // than "a long gap between two of its own frames")
+    let mut ever_stale: std::collections::BTreeSet<u32> = Default::default();
     let filter = case.script.filter();
     let passes = |df: u32| filter.as_ref().map(|f| f.contains(&df)).unwrap_or(true);
     for (i, s) in h.steps.iter().enumerate() {
@@ -172,11 +176,14 @@ fn check(case: &Case, st: &mut Stats) -> Vec<Violation> {
                 applied_addrs.insert(a);
             } else if c.accepted {
                 unjudged = true;
+                model.note_unjudged(s.t_us);
             } else if c.frame.is_some() && c.addr == Some(0) && c.parity_ok {
                 zero_frames += 1;
                 st.probe("zero_address_frame");
             }
         }
+        for (a, _) in model.last.iter() { if model.maybe_stale(*a, s.t_us) { ever_stale.insert(*a); } }
+        if s.tag.contains("clock-back") { st.probe("clock_set_back"); }
         st.oracle_evals += 1;
         // always: no row for address 0, key == address
         if s.after.contains_key(&0) {
@@ -208,7 +215,7 @@ fn check(case: &Case, st: &mut Stats) -> Vec<Violation> {
                 Some(ra) if ra != rb => {
                     v.push(viol("C03.foreign-row", i, format!("row {:06X} changed although the delivered frames encode {:?}: {}", a, touched.iter().map(|a| format!("{:06X}", a)).collect::<Vec<_>>(), diff_fields(rb, ra).join("; ")), json!({})));
                 }
-                None if !model.is_stale(*a, s.t_us) => {
+                None if !model.maybe_stale(*a, s.t_us) => {
                     v.push(viol("C03.foreign-row", i, format!("row {:06X} (heard {:.3} s ago) was removed by frames of {:?}", a, (s.t_us - model.last.get(a).copied().unwrap_or(0)) as f64 / 1e6, touched.iter().map(|a| format!("{:06X}", a)).collect::<Vec<_>>()), json!({"removed": true})));
                 }
                 _ => {}
@@ -230,7 +237,7 @@ fn check(case: &Case, st: &mut Stats) -> Vec<Violation> {
             }
         }
         // deterministic choice: the aircraft with the most frames (ties: lowest address)
-        let pick = own.iter().filter(|(_, fr)| fr.len() >= 2 && fr.windows(2).all(|w| (w[1].0 - w[0].0).div_euclid(1_000_000) < d) && (h.end_t_us - fr.last().unwrap().0).div_euclid(1_000_000) < d).max_by_key(|(a, fr)| (fr.len(), u32::MAX - **a));
+        let pick = own.iter().filter(|(a, fr)| !ever_stale.contains(*a) && fr.len() >= 2 && fr.windows(2).all(|w| (w[1].0 - w[0].0).div_euclid(1_000_000) < d) && (h.end_t_us - fr.last().unwrap().0).div_euclid(1_000_000) < d).max_by_key(|(a, fr)| (fr.len(), u32::MAX - **a));
         if let (Some((a, frames)), false) = (pick, unjudged_any) {
             let mut ops = vec![];
             let mut prev = exec::T0_US;
